@@ -122,7 +122,7 @@ type MultisetCombinationIterator struct {
 	state []int
 	m     []int
 	k     int
-	j     int
+	done  bool
 
 	//A buffer slice to return the value in as we iterate using FreqValue
 	value []int
@@ -155,15 +155,18 @@ func (iter MultisetCombinationIterator) FreqValue() []int {
 }
 
 //Next attempts to advance the iterator to the next multiset, returning true if there is one and false if not.
-//This is an implementation of Algorithm Q from The Art of Computer Programming Volume 4a section 7.2.1.3.
+//The multisets are visited in the order of Algorithm Q from The Art of Computer Programming Volume 4a section 7.2.1.3 i.e. in colexicographic order of FreqValue.
 func (iter *MultisetCombinationIterator) Next() bool {
+	if iter.done {
+		return false
+	}
+
 	if iter.state == nil {
-		//Initial call
+		//Initial call. Put as many elements as possible in the earliest positions.
 		iter.value = make([]int, iter.k)
-		//Q2
 		iter.state = make([]int, len(iter.m))
 		x := iter.k
-		for j := 0; j < len(iter.m); j++ {
+		for j := 0; j < len(iter.m) && x > 0; j++ {
 			if x > iter.m[j] {
 				iter.state[j] = iter.m[j]
 				x -= iter.m[j]
@@ -171,80 +174,33 @@ func (iter *MultisetCombinationIterator) Next() bool {
 			}
 			iter.state[j] = x
 			x = 0
-			iter.j = j
-			break
 		}
 		if x > 0 {
+			iter.done = true
 			return false
 		}
-
 		return true
 	}
 
-	//Q4
+	//Find the first position j which can be increased by taking an element from an earlier position, and then move the remaining x earlier elements as far forward as possible.
 	x := 0
-	j := iter.j
-	if j == 0 {
-		x = iter.state[0] - 1
-		j = 1
-	} else if iter.state[0] == 0 {
-		x = iter.state[j] - 1
-		iter.state[j] = 0
-		j++
-	} else {
-		goto Q7
-	}
-
-	//Q5
-Q5:
-	if j >= len(iter.m) {
-		return false
-	}
-
-	if iter.state[j] == iter.m[j] {
-		x += iter.m[j]
-		iter.state[j] = 0
-		j++
-		goto Q5
-	}
-
-	//Q6
-	iter.state[j]++
-	if x == 0 {
-		iter.state[0] = 0
-		iter.j = j
-		return true
-	}
-
-	//Q2 again
-	for j = 0; j < len(iter.m); j++ {
-		if x > iter.m[j] {
-			iter.state[j] = iter.m[j]
-			x -= iter.m[j]
-			continue
+	for j := 0; j < len(iter.m); j++ {
+		if x > 0 && iter.state[j] < iter.m[j] {
+			iter.state[j]++
+			x--
+			for i := 0; i < j; i++ {
+				if x > iter.m[i] {
+					iter.state[i] = iter.m[i]
+					x -= iter.m[i]
+					continue
+				}
+				iter.state[i] = x
+				x = 0
+			}
+			return true
 		}
-		iter.state[j] = x
-		x = 0
-		break
+		x += iter.state[j]
 	}
-	iter.j = j
-	return true
-
-	//Q7
-Q7:
-	for iter.state[j] == iter.m[j] {
-		j++
-		if j >= len(iter.m) {
-			return false
-		}
-	}
-
-	iter.state[j]++
-	j--
-	iter.state[j]--
-	if iter.state[0] == 0 {
-		j = 1
-	}
-	iter.j = j
-	return true
+	iter.done = true
+	return false
 }
